@@ -57,6 +57,7 @@ def confirm(wt, out):
 
 
 def run(sdir, props, tier):
+    sdir = os.path.abspath(sdir)
     meta_p = os.path.join(sdir, "meta.json")
     meta = json.load(open(meta_p)) if os.path.exists(meta_p) else {}
     rc, o = sh("git status --porcelain", cwd=REPO)
